@@ -238,7 +238,7 @@ theorem vmEx_flows (v : Nat) (f : Flow) (h : (absVM ν φ vmEx).flows v = some f
     exact ⟨rfl, rfl, rfl, hv.symm⟩
   · cases h
 
-example : FlowInv (absVM ν φ vmEx) := by
+theorem vmEx_flowInv : FlowInv (absVM ν φ vmEx) := by
   refine ⟨?_, ?_, ?_, ?_, ?_⟩
   · intro p pf c cf hp hc; rw [(vmEx_flows ν φ p pf hp).1] at hc; cases hc
   · intro p pf c cf hp hc; rw [(vmEx_flows ν φ p pf hp).1] at hc; cases hc
@@ -246,17 +246,54 @@ example : FlowInv (absVM ν φ vmEx) := by
   · intro v f hv _; exact (vmEx_flows ν φ v f hv).2.1
   · intro v f hv; rw [(vmEx_flows ν φ v f hv).2.2.2]; simp [absVM, vmEx]
 
-example : LinkInv (absVM ν φ vmEx) := by
+theorem vmEx_linkInv : LinkInv (absVM ν φ vmEx) := by
   refine ⟨?_, ?_, ?_⟩
   · intro c cf p pf hc _ hp; rw [(vmEx_flows ν φ c cf hc).2.1] at hp; cases hp
   · intro c cf p hc hp; rw [(vmEx_flows ν φ c cf hc).2.1] at hp; cases hp
   · intro v f hv _; exact (vmEx_flows ν φ v f hv).2.1
 
-example : ∃ vm', RefinedSteps ν φ vmEx vm' ∧ RefinedStep ν φ vmEx vm' := by
+theorem vmEx_refined : ∃ vm', RefinedSteps ν φ vmEx vm' ∧ RefinedStep ν φ vmEx vm' := by
   cases h : CoreVM.abortFlow 3 "a" [] false vmEx with
   | ok u vm' => exact ⟨vm', .tail (.refl _) (.abort 3 "a" [] false _ _ h), .abort 3 "a" [] false _ _ h⟩
   | error e s =>
     have : (match CoreVM.abortFlow 3 "a" [] false vmEx with | .ok _ _ => true | .error _ _ => false) = true := by rfl
     rw [h] at this; cases this
+
+
+/-! ### an injective numbering of strings exists (non-vacuity of the hypotheses on `ν`, `φ`) -/
+
+def encL : List Char → Nat
+  | [] => 0
+  | c :: l => encL l * 1114112 + c.toNat + 1
+
+theorem char_lt (c : Char) : c.toNat < 1114112 := by
+  have := c.valid
+  simp only [Char.toNat]
+  rcases this with h | h
+  · have : c.val.toNat < 55296 := h
+    omega
+  · have : c.val.toNat < 1114112 := h.2
+    omega
+
+theorem encL_inj : ∀ l1 l2 : List Char, encL l1 = encL l2 → l1 = l2
+  | [], [], _ => rfl
+  | [], c :: l, h => by simp only [encL] at h; omega
+  | c :: l, [], h => by simp only [encL] at h; omega
+  | c1 :: l1, c2 :: l2, h => by
+    simp only [encL] at h
+    have h1 := char_lt c1
+    have h2 := char_lt c2
+    have hl : encL l1 = encL l2 := by omega
+    have hc : c1.toNat = c2.toNat := by omega
+    rw [encL_inj l1 l2 hl]
+    have : c1 = c2 := Char.toNat_inj.mp hc
+    rw [this]
+
+/-- a concrete injective numbering of uids / flow ids -/
+def enc (s : String) : Nat := encL s.toList
+
+theorem enc_inj : Function.Injective enc := by
+  intro a b h
+  exact String.toList_inj.mp (encL_inj _ _ h)
 
 end NemoVerif.Lifetime.Refine
